@@ -379,9 +379,75 @@ def _undominated_use(A, f, assign, var):
     def_nodes = [n for n in cfg.nodes if n.ast is assign]
     if not def_nodes:
         return None
+    starts = [m for d in def_nodes for m, _ in d.succs]
+    return _deref_scan(A, f, starts, var, 0)
+
+
+def _param_of(g, call, i):
+    """name of the parameter of g that positional argument i of `call`
+    binds to (None when out of range)."""
+    off = 1 if g.cls is not None and not any(
+        d in ('staticmethod',) for d in g.decorators) and \
+        isinstance(call.func, ast.Attribute) else 0
+    params = g.params
+    return params[i + off] if i + off < len(params) else None
+
+
+def _is_noneable(g):
+    return any(d.split('.')[-1] == 'noneable' for d in g.decorators)
+
+
+def _maybe_none(A, f, e, var, depth):
+    """Can expression e be None because local `var` of f is None?"""
+    if isinstance(e, ast.Name):
+        return e.id == var
+    if isinstance(e, ast.Call) and depth < 4:
+        for i, a in enumerate(e.args):
+            if _maybe_none(A, f, a, var, depth):
+                for g in A.callees(f, e):
+                    p = _param_of(g, e, i)
+                    if p is not None and _returns_none_for(A, g, p, depth + 1):
+                        return True
+    return False
+
+
+def _returns_none_for(A, g, p, depth):
+    """g can return None when its parameter p is None: the noneable wrapper,
+    or a return of p itself / of such a call on p."""
+    if _is_noneable(g):
+        return True
+    if depth > 4:
+        return False
+    for n in walk_own(g.node):
+        if isinstance(n, ast.Return) and n.value is not None and \
+                _maybe_none(A, g, n.value, p, depth):
+            return True
+    return False
+
+
+def _param_deref(A, g, p, depth):
+    """How g uses its parameter p without testing it for None (or None)."""
+    memo = A._memo.setdefault('param_deref', {})
+    key = (g, p)
+    if key in memo:
+        return memo[key]
+    memo[key] = None            # recursion guard
+    if _is_noneable(g) or depth > 4:
+        return None
+    cfg = A.cfg(g)
+    memo[key] = _deref_scan(A, g, [cfg.entry], p, depth)
+    return memo[key]
+
+
+def _deref_scan(A, f, starts, var, depth):
+    cfg = A.cfg(f)
     tests = [n for n in cfg.nodes if n.kind == 'cond' and
              norm(n.ast) in (var, '%s is None' % var, '%s is not None' % var)]
-    for n in cfg.reachable_from([m for d in def_nodes for m, _ in d.succs]):
+    for n in cfg.reachable_from(starts):
+        if n.kind == 'stmt' and isinstance(n.ast, ast.Assign) and any(
+                isinstance(t, ast.Name) and t.id == var for t in n.ast.targets) \
+                and n not in starts:
+            pass        # re-bound later on: flow-insensitive, keep scanning
         for e in n.exprs():
             for sub in ast.walk(e):
                 deref = None
@@ -398,6 +464,17 @@ def _undominated_use(A, f, assign, var):
                     deref = 'iterated'
                 if isinstance(sub, ast.comprehension) and norm(sub.iter) == var:
                     deref = 'iterated'
+                if isinstance(sub, ast.Call) and deref is None and depth < 4 \
+                        and norm(sub.func) not in ('len', 'enumerate'):
+                    for i, a in enumerate(sub.args):
+                        if not _maybe_none(A, f, a, var, depth):
+                            continue
+                        for g in A.callees(f, sub):
+                            p = _param_of(g, sub, i)
+                            d = _param_deref(A, g, p, depth + 1) if p else None
+                            if d:
+                                deref = 'passed on to %s, where it is %s' % (
+                                    g.short, d)
                 if deref is None:
                     continue
                 guarded = False
@@ -408,6 +485,17 @@ def _undominated_use(A, f, assign, var):
                         guarded = True
                 if not guarded:
                     return deref
+        # tuple unpacking of the value
+        if n.kind == 'stmt' and isinstance(n.ast, ast.Assign) and \
+                isinstance(n.ast.targets[0], (ast.Tuple, ast.List)) and \
+                isinstance(n.ast.value, ast.Name) and n.ast.value.id == var:
+            guarded = False
+            for t in tests:
+                lab = norm(t.ast) != '%s is None' % var
+                if n.id not in reachable_without_edges(cfg, cfg.entry, {(t.id, lab)}):
+                    guarded = True
+            if not guarded:
+                return 'unpacked'
     return None
 
 
